@@ -23,6 +23,7 @@ inductive Slot where | absent | requested | present deriving DecidableEq, Repr
 /-- shape of a tree description relative to the roster it names -/
 inductive Shape where
   | good | emptyChildren | unknownServer
+  | other        -- a well-formed description of another structure over the same servers
   deriving DecidableEq, Repr
 
 structure TM where
@@ -99,7 +100,7 @@ def rosterOf : TRef → RoRef
 
 /-- `TreeMarshal.MakeTree(ro)`: `none` = error -/
 def makeTree (tm : TM) (ro : Ro) : Bool :=
-  ro.id = tm.ro && tm.shape = .good && ro.hasList && ro.keysOk
+  ro.id = tm.ro && (tm.shape = .good || tm.shape = .other) && ro.hasList && ro.keysOk
 
 /-- the `transmitMux` region for a message whose tree is present, then the reader goroutine -/
 def deliver (s : Srv) (to : Tok) (frm : Frm) (m3 : Bool) : Out × Srv :=
@@ -232,7 +233,8 @@ def tref : String → Option TRef
 def roref : String → Option RoRef
   | "roK" => some .roK | "roR" => some .roR | "roX" => some .roX | "roZ" => some .roZ | _ => none
 def shape : String → Option Shape
-  | "good" => some .good | "empty" => some .emptyChildren | "unksrv" => some .unknownServer | _ => none
+  | "good" => some .good | "empty" => some .emptyChildren | "unksrv" => some .unknownServer
+  | "other" => some .other | _ => none
 def tok : String → Option Tok
   | "none" => some .none | "zero" => some .zero | "run" => some .run | "done" => some .done
   | "badnode" => some .badNode
